@@ -221,7 +221,7 @@ impl<S: ClientStream> AgentClient<S> {
         let mut keys = Vec::new();
         let resp = self.stream.request(&buf)?;
 
-        if resp[0] == msg::IDENTITIES_ANSWER {
+        if resp.first() == Some(&msg::IDENTITIES_ANSWER) {
             let mut r = resp.reader(1);
             let n = r.read_u32()?;
 
@@ -288,8 +288,8 @@ impl<S: ClientStream> AgentClient<S> {
         let _t = resp.read_string()?;
         let sig = resp.read_string()?;
 
-        let mut out = [0; 64];
-        out.copy_from_slice(sig);
+        // N.b. the length of the signature is chosen by the agent.
+        let out = Signature::try_from(sig).map_err(|_| Error::AgentProtocolError)?;
 
         Ok(out)
     }
